@@ -10,6 +10,8 @@ import base64
 import binascii
 
 import dns.exception
+import dns.ipv4
+import dns.ipv6
 import dns.name
 import dns.rdata
 import dns.rdataclass
@@ -77,6 +79,10 @@ def enc(s):
     return [ord(c) for c in s]
 
 
+def enc_cp(s):
+    return enc(s)
+
+
 def dec(t):
     if isinstance(t, (bytes, bytearray)):
         return t.decode("latin-1")
@@ -133,6 +139,27 @@ def gen_bytes(rng, maxlen=40):
 
 SEPS = [b" ", b"  ", b"\t", b" \t ", b""]
 
+# code points from every class that str.isprintable / the escaping rules could treat differently
+UCHARS = ["\x00", "\x01", "\x09", "\x0a", "\x1f", " ", '"', "\\", ";", "a", "~", "\x7f", "\x80", "\x9f", "\xa0", "\xad",
+          "\xe9", "\xff", "\u0100", "\u0378", "\u07ff", "\u0800", "\u200b", "\u200f", "\u2028", "\u2029", "\u3000",
+          "\ud7ff", "\ue000", "\ufeff", "\uffff", "\U00010000", "\U0001f600", "\U000e0001", "\U0010ffff"]
+BAD_UTF8 = [b"\xc0\x80", b"\xc1\xbf", b"\xe0\x80\x80", b"\xe0\x9f\xbf", b"\xed\xa0\x80", b"\xed\xbf\xbf", b"\xf0\x80\x80\x80",
+            b"\xf0\x8f\xbf\xbf", b"\xf4\x90\x80\x80", b"\xf5\x80\x80\x80", b"\x80", b"\xbf", b"\xc2", b"\xe2\x82", b"\xf0\x9f\x98",
+            b"\xff", b"\xfe", b"\xc2\x41", b"\xe2\x28\xa1"]
+
+
+def gen_utext(rng, maxlen=8):
+    return "".join(rng.choice(UCHARS) for _ in range(rng.randint(0, maxlen)))
+
+
+def gen_ubytes(rng):
+    """mostly valid UTF-8, sometimes with an ill-formed sequence spliced in"""
+    b = gen_utext(rng).encode()
+    if rng.random() < 0.35:
+        i = rng.randint(0, len(b))
+        b = b[:i] + rng.choice(BAD_UTF8) + b[i:]
+    return b[:255]
+
 
 def cases(ctx):
     rng = ctx.rng
@@ -141,32 +168,45 @@ def cases(ctx):
         yield "escapify", [1, bytes([o])]
         yield "txt-rt", [7, enc(dns.rdata._escapify(bytes([o, 0x41, o])).join(['"', '"']))]
     ctx.notes["exhaustive"] = True
-    for _ in range(ctx.n(150, 4000)):
+    # --- exhaustive small scope: every text over the characters that drive the tokenizer state machine
+    alpha = 'a0 "\\;()\n'
+    import itertools
+    nexh = 0
+    for n in range(0, ctx.n(4, 5)):
+        for tup in itertools.product(alpha, repeat=n):
+            t = "".join(tup)
+            nexh += 1
+            yield "tokenize-exh", [2, enc(t), 0, 0]
+            if n <= ctx.n(2, 3):
+                yield "txt-exh", [7, enc(t)]
+    ctx.notes["exhaustive_scopes"] = ("all 256 octets through _escapify and back; all texts of length <= %d over %r through "
+                                      "Tokenizer.get (and, up to length 3, through TXT from_text)" % (ctx.n(3, 4), alpha))
+    for _ in range(ctx.n(80, 4000)):
         b = gen_bytes(rng)
         yield "escapify", [1, b]
         t = dns.rdata._escapify(b)
         yield "unescape-bytes", [4, enc(t)]
         yield "unescape", [3, enc(t), 1]
-    for _ in range(ctx.n(500, 15000)):
+    for _ in range(ctx.n(250, 15000)):
         t = gen_text(rng)
         yield "tokenize", [2, enc(t), int(rng.random() < 0.2), int(rng.random() < 0.2)]
         yield "txt-from-text", [7, enc(t)]
-    for _ in range(ctx.n(300, 8000)):
+    for _ in range(ctx.n(120, 8000)):
         a = gen_atom(rng) + (gen_atom(rng) if rng.random() < 0.5 else "")
         yield "unescape", [3, enc(a), int(rng.random() < 0.9)]
         yield "unescape-bytes", [4, enc(a)]
         yield "int", [8, enc(a), rng.choice([10, 10, 8])]
         yield "ttl", [9, enc(a)]
-    for _ in range(ctx.n(400, 10000)):
+    for _ in range(ctx.n(250, 10000)):
         t = gen_text(rng)
         ops = [rng.choice([0, 0, 1, 2, 3, 4, 5, 6, 7, 8, 8, 9, 10, 11, 12, 13, 14, 16, 17, 18, 19, 20, 21, 21, 22]) for _ in range(rng.randint(1, 6))]
         yield "script", [5, enc(t), ops]
-    for _ in range(ctx.n(150, 3000)):
+    for _ in range(ctx.n(80, 3000)):
         ss = [gen_bytes(rng, 300 if rng.random() < 0.1 else 30) for _ in range(rng.randint(1, 4))]
         ss = [s[:255] for s in ss]
         yield "txt-to-text", [6, ss]
         yield "txt-from-text", [7, enc(c05lib.txt_text(ss))]
-    for _ in range(ctx.n(100, 2000)):
+    for _ in range(ctx.n(50, 2000)):
         # TXT in RFC 3597 generic syntax: valid wire, truncated / over-long strings, empty rdata
         ss = [gen_bytes(rng, 12) for _ in range(rng.randint(0, 3))]
         w = b"".join(bytes([len(x)]) + x for x in ss)
@@ -174,12 +214,26 @@ def cases(ctx):
             w = mutate_ascii(rng, w) if w else b"\x05ab"
         t = c05lib.generic_text(w, rng.choice([0, 2, 128]), rng.choice(SEPS))
         yield "txt-generic", [7, enc(t if rng.random() < 0.8 else mutate_text(rng, t))]
+    # --- RdataStyle.txt_is_utf8: _escapify_unicode, bytes.decode, TXT to_text with both settings
+    for ch in UCHARS:
+        yield "escapify-unicode", [11, enc(ch + "x" + ch)]
+        yield "utf8-decode", [12, ch.encode()]
+        yield "txt-style", [13, [ch.encode(), (ch + ch).encode()], 1]
+    for b in BAD_UTF8:
+        yield "utf8-decode", [12, b]
+        yield "utf8-decode", [12, b"a" + b + b"z"]
+        yield "txt-style", [13, [b, b"ok"], 1]
+    for _ in range(ctx.n(40, 3000)):
+        yield "escapify-unicode", [11, enc(gen_utext(rng))]
+        yield "utf8-decode", [12, gen_ubytes(rng)]
+        ss = [gen_ubytes(rng) if rng.random() < 0.7 else gen_bytes(rng, 20) for _ in range(rng.randint(1, 3))]
+        yield "txt-style", [13, ss, rng.randrange(2)]
     for v in [0, 1, 7, 8, 9, 10, 99, 100, 255, 256, 65535, 65536, 2**31, 2**32 - 1, 2**32, 2**48 - 1, 2**48, 10**20]:
         yield "print", [10, 10, v]
         yield "print", [10, 8, v]
     for _ in range(ctx.n(50, 1000)):
         yield "print", [10, rng.choice([8, 10]), rng.randrange(2 ** rng.choice([4, 8, 16, 32, 48, 64]))]
-    for _ in range(ctx.n(200, 5000)):
+    for _ in range(ctx.n(60, 5000)):
         d = gen_bytes(rng, 70)
         chunk = rng.choice([0, 1, 2, 3, 4, 5, 7, 8, 32, 64, 128])
         sep = rng.choice(SEPS)
@@ -194,10 +248,12 @@ def cases(ctx):
         yield "b64decode", [23, b]
         yield "b64decode", [23, mutate_ascii(rng, b)]
         yield "truncate-bitmap", [24, rng.choice([d, d + b"\0\0", b"\0" * rng.randint(0, 3), d[:3] + b"\0"])]
-    for _ in range(ctx.n(200, 5000)):
+    for _ in range(ctx.n(60, 5000)):
         d = gen_bytes(rng, 20)
         t = c05lib.generic_text(d, rng.choice([0, 2, 4, 128]), rng.choice(SEPS))
         yield "generic-from-text", [31, enc(mutate_text(rng, t))]
+    # --- address text codecs (dns/ipv4.py, dns/ipv6.py)
+    yield from addr_cases(ctx)
     # --- the regular record types through the schema model
     yield from schema_cases(ctx)
     # --- whole records (oracle only)
@@ -245,7 +301,7 @@ def gen_field(rng, kind):
     if kind in ("hex", "b64"):
         return gen_bytes(rng, 80) or b"\0"
     if kind == "txt":
-        return [gen_bytes(rng, 30)[:255] for _ in range(rng.randint(1, 4))]
+        return [(gen_ubytes(rng) if rng.random() < 0.5 else gen_bytes(rng, 30))[:255] for _ in range(rng.randint(1, 4))]
     raise ValueError(kind)
 
 
@@ -255,7 +311,7 @@ ORIGINS = [None, [b"example", b""], [b"EXAMPLE", b""], [b""], [b"sub", b"example
 def gen_style(rng):
     org = rng.choice(ORIGINS[:5]) if rng.random() < 0.6 else None
     return [org, rng.randrange(2), rng.choice([0, 1, 2, 5, 32, 128]), rng.choice(SEPS),
-            rng.choice([0, 1, 3, 4, 32]), rng.choice(SEPS)]
+            rng.choice([0, 1, 3, 4, 32]), rng.choice(SEPS), rng.randrange(2)]
 
 
 def gen_pctx(rng):
@@ -276,16 +332,16 @@ def build_rdata(rdtype, vals):
 
 
 def style_obj(sty):
-    org, rel, hc, hs, bc, bs = sty
+    org, rel, hc, hs, bc, bs, u8 = sty
     return dns.rdata.RdataStyle(origin=mkname(org), relativize=bool(rel), hex_chunk_size=hc,
                                 hex_chunk_separator=bytes(hs).decode(), base64_chunk_size=bc,
-                                base64_chunk_separator=bytes(bs).decode())
+                                base64_chunk_separator=bytes(bs).decode(), txt_is_utf8=bool(u8))
 
 
 def schema_cases(ctx):
     rng = ctx.rng
     types = sorted(SCHEMA)
-    for _ in range(ctx.n(600, 12000)):
+    for _ in range(ctx.n(250, 12000)):
         rdtype = rng.choice(types)
         kinds = SCHEMA[rdtype][0].split()
         vals = [gen_field(rng, k) for k in kinds]
@@ -302,6 +358,64 @@ def schema_cases(ctx):
         yield "rd-from-text", [41, rdtype, enc(text), pc]
         yield "rd-from-text", [41, rdtype, enc(text + rng.choice(["\n", " ; c", " )", "  ", " x", ""])), pc]
         yield "rd-from-text-mut", [41, rdtype, enc(c05lib.mutate_rdtext(rng, text)), gen_pctx(rng)]
+
+
+V6TEXTS = ["::", "::1", "1::", "1::8", "1:2:3:4:5:6:7:8", "1:2:3:4:5:6:7::", "::2:3:4:5:6:7:8", "1:2:3:4::6:7:8", "0:0:0:0:0:0:0:0",
+           "::ffff:1.2.3.4", "::1.2.3.4", "1:2:3:4:5:6:1.2.3.4", "64:ff9b::192.0.2.33", "::ffff:0:0", "::ffff:0.0.0.0", ":", ":::",
+           "1:::2", "::1::", "12345::", "g::", "1.2.3.4", "::1.2.3", "::01.2.3.4", "::256.1.1.1", "2001:0DB8::1", "FFFF::ffff",
+           "1:2:3:4:5:6:7:8:9", "1:2:3:4:5:6:7", ":1:2:3:4:5:6:7", "1:2:3:4:5:6:7:", "::%eth0", "fe80::1%1", "", "0", "00000::",
+           "::1.2.3.4.5", "1.2.3.4::", "::.1.2.3", "::1.2..4", "a:b:c:d:e:f:0:1", "0:0:0:0:0:ffff:1:2", "0:0:0:0:0:0:1:2", "::0:1:2"]
+V4TEXTS = ["0.0.0.0", "255.255.255.255", "1.2.3.4", "01.2.3.4", "1.2.3", "1.2.3.4.5", "256.1.1.1", "1..2.3", "a.b.c.d", "", ".", "1.2.3.4 ",
+           "+1.2.3.4", "1.2.3.-4", "00.0.0.0", "0.0.0.00", "99999999999.1.1.1", "1.2.3.\u0664"]
+
+
+def gen_v6(rng):
+    chunks = []
+    for _ in range(8):
+        r = rng.random()
+        chunks.append(0 if r < 0.5 else 0xFFFF if r < 0.6 else rng.choice([1, 0x10, 0x100, 0x1000, 0xA, 0xABCD, rng.randrange(65536)]))
+    r = rng.random()
+    if r < 0.15:
+        chunks[:5] = [0] * 5
+        chunks[5] = rng.choice([0, 0xFFFF, 0xFFFF, 1])
+    elif r < 0.25:
+        k = rng.randint(0, 8)
+        chunks[k:] = [0] * (8 - k)
+    return b"".join(c.to_bytes(2, "big") for c in chunks)
+
+
+def addr_cases(ctx):
+    rng = ctx.rng
+    for t in V4TEXTS:
+        yield "ipv4-aton", [51, enc(t)]
+    for t in V6TEXTS:
+        yield "ipv6-aton", [53, enc(t)]
+    for o in range(256):
+        yield "ipv4-ntoa", [50, bytes([o, (o * 7) % 256, 255 - o, o])]
+        if not ctx.quick:
+            yield "ipv4-aton", [51, enc("%d.0.%d.1" % (o, o))]
+    for _ in range(ctx.n(50, 6000)):
+        a4 = bytes(rng.choice([0, 1, 9, 10, 99, 100, 199, 200, 255, rng.randrange(256)]) for _ in range(4))
+        yield "ipv4-ntoa", [50, a4 if rng.random() < 0.95 else a4[:3]]
+        t4 = dns.ipv4.inet_ntoa(a4)
+        yield "ipv4-aton", [51, enc(t4)]
+        yield "ipv4-aton", [51, enc(mutate_ascii(rng, t4.encode()).decode("latin-1"))]
+        a6 = gen_v6(rng)
+        yield "ipv6-ntoa", [52, a6 if rng.random() < 0.97 else a6[:15]]
+        t6 = dns.ipv6.inet_ntoa(a6)
+        yield "ipv6-aton", [53, enc(t6)]
+        yield "ipv6-aton", [53, enc(t6.upper())]
+        m = bytearray(t6.encode())
+        for _ in range(rng.randint(1, 2)):
+            pos = rng.randint(0, len(m))
+            r = rng.random()
+            if r < 0.4 and m:
+                del m[min(pos, len(m) - 1)]
+            elif r < 0.8:
+                m.insert(pos, rng.choice(b":.:0f1g"))
+            elif m:
+                m[min(pos, len(m) - 1)] = rng.choice(b":.09af")
+        yield "ipv6-aton", [53, enc(m.decode("latin-1"))]
 
 
 def mutate_ascii(rng, b):
@@ -337,6 +451,9 @@ def mutate_text(rng, t):
 
 def in_model(kind, case):
     if case[0] >= 100:
+        return False
+    if case[0] in (51, 53) and any(c in (10, 13) or c > 127 for c in (case[1] if isinstance(case[1], (bytes, list)) else b"")):
+        # regular-expression corner cases ('.' and '$' around line breaks) and non-ASCII digits: outside the model
         return False
     if case[0] == 41:
         text = dec(case[2])
@@ -397,6 +514,17 @@ def impl(case):
             return dns.ttl.from_text(dec(case[1]))
         if op == 10:
             return enc(format(case[2], "o" if case[1] == 8 else "d"))
+        if op == 11:
+            return enc(dns.rdata._escapify_unicode(dec(case[1])))
+        if op == 12:
+            try:
+                return enc_cp(bytes(case[1]).decode())
+            except UnicodeDecodeError:
+                return None
+        if op == 13:
+            rd = dns.rdata.from_wire(dns.rdataclass.IN, dns.rdatatype.TXT, b"".join(bytes([len(x)]) + bytes(x) for x in case[1]), 0,
+                                     sum(len(x) + 1 for x in case[1]))
+            return enc(rd.to_text(style=dns.rdata.RdataStyle(txt_is_utf8=bool(case[2]))))
         if op == 20:
             return enc(dns.rdata._styled_hexify(case[1], dns.rdata.RdataStyle(hex_chunk_size=case[2], hex_chunk_separator=case[3].decode())))
         if op == 21:
@@ -411,6 +539,17 @@ def impl(case):
             return enc(c05lib.generic_text(case[1], case[2], case[3]))
         if op == 31:
             return dns.rdata.from_text(dns.rdataclass.IN, UNKNOWN_TYPE, dec(case[1])).data
+        if op == 50:
+            return enc(dns.ipv4.inet_ntoa(case[1]))
+        if op == 51:
+            return dns.ipv4.inet_aton(dec(case[1]))
+        if op == 52:
+            try:
+                return enc(dns.ipv6.inet_ntoa(case[1]))
+            except ValueError:
+                return Err(105, "ValueError")
+        if op == 53:
+            return dns.ipv6.inet_aton(dec(case[1]))
         if op == 40:
             return enc(build_rdata(case[1], case[2]).to_text(style=style_obj(case[3])))
         if op == 41:
@@ -528,6 +667,21 @@ def oracle(ctx, kind, case, out):
                 fail("TXT text does not parse back to the same strings", sig="txt")
         except Exception as e:  # noqa
             fail("TXT text does not parse: " + repr(e), sig="txt")
+    elif op in (50, 52) and not isinstance(out, Err):
+        try:
+            back = dns.ipv4.inet_aton(dec(out)) if op == 50 else dns.ipv6.inet_aton(dec(out))
+            if back != case[1]:
+                fail("address text does not parse back to the same octets", sig="addr")
+        except Exception as e:  # noqa
+            fail("address text does not parse: %r" % e, sig="addr")
+    elif op == 13:
+        text = dec(out)
+        try:
+            rd = dns.rdata.from_text(dns.rdataclass.IN, dns.rdatatype.TXT, text)
+            if [bytes(x) for x in rd.strings] != [bytes(x) for x in case[1]]:
+                fail("TXT text (txt_is_utf8=%d) does not parse back to the same strings" % case[2], sig="txt-style")
+        except Exception as e:  # noqa
+            fail("TXT text (txt_is_utf8=%d) does not parse: %r" % (case[2], e), sig="txt-style")
     elif op in (20, 21):
         # chunked output, blanks only as separators: concatenating the identifiers and decoding gives the data
         text = dec(out)
